@@ -1828,7 +1828,8 @@ def result_view(r):
     if tn == "model_result":
         v.update({
             "name": obs(lambda: r.name), "lnL": obs(lambda: float(r.lnL)), "nfp": obs(lambda: int(r.nfp)),
-            "DLC_uniqueQ": obs(lambda: [r.DLC, r.unique_Q]), "counters": obs(lambda: [r.num_evaluations, r.evaluation_limit]),
+            "DLC_uniqueQ": obs(lambda: [r.DLC, r.unique_Q]), "num_evaluations": obs(lambda: r.num_evaluations),
+            "evaluation_limit": obs(lambda: r.evaluation_limit),      # (observed separately: one that raises must not hide the other)
             "elapsed": obs(lambda: r.elapsed_time), "lf_names": obs(lambda: [x.name for x in (r.lf.values() if isinstance(r.lf, dict) else [r.lf])]),
             "tree": obs(lambda: r.tree.get_newick(with_distances=True) if not isinstance(r.tree, dict) else {str(k): t.get_newick(with_distances=True) for k, t in r.tree.items()}),
             "alignment": obs(lambda: dict(r.alignment.to_dict()) if not isinstance(r.alignment, dict) else {str(k): dict(a.to_dict()) for k, a in r.alignment.items()}),
